@@ -247,6 +247,15 @@ class CallMixin:
         d0 = (self.reg.classes.get(cls) or self.reg.class_by_key.get(cls)) if cls else None
         # 1. fields declared (possibly as an abstraction) for exactly this class
         if d0 is not None and attr in d0.fields:
+            if attr in getattr(d0, 'maybe_absent', ()) and not self.spec_mode:
+                # an attribute only some concrete subclasses define (it is merely annotated in the class under
+                # verification): reading it raises AttributeError on the others.  Presence is a ghost flag per object.
+                has = self.read_field(st, base, 'has$' + attr, BOOL)
+                ok, bad = self.guard(st, has.t, 'builtins:AttributeError')
+                out = [(bad, None)] if bad is not None else []
+                if ok is not None:
+                    out.append((ok, self.read_field(ok, base, attr, d0.fields[attr])))
+                return out
             return [(st, self.read_field(st, base, attr, d0.fields[attr]))]
         if d0 is not None and d0.opaque:
             # objects of the environment (transports, loops, ...): method calls go to assumed contracts
@@ -683,7 +692,10 @@ class CallMixin:
         replays run natively) as a total function and merge its paths into one value."""
         base = st.copy()
         n0 = len(base.pc)
-        args = [a.some() if isinstance(a, VOpt) else a for a in args]
+        if info.qualname not in getattr(self.reg, 'spec_optional_args', ()):
+            # by default a spec function is written over present values; functions listed in reg.spec_optional_args
+            # take Optional parameters and test them with `is None` themselves
+            args = [a.some() if isinstance(a, VOpt) else a for a in args]
         args = [VInt(a.t) if isinstance(a, VEnum) else a for a in args]
         save = self.cur_contract, self.collect_only
         self.spec_mode += 1
